@@ -43,6 +43,9 @@ const EVT_STATUS_UPDATE: Token = Token(1);
 const EVT_HEALTH_CHECK: Token = Token(2);
 
 // Canned response to health check request
+// Upper bound on the number of batches handled by one call of `process_events()`
+const MAX_BATCHES_PER_EVENT: usize = 16;
+
 const HTTP_RESPONSE: &str = "HTTP/1.1 200 OK\nContent-Length: 0\nConnection: close\n\n";
 
 /// The main Roughenough server instance.
@@ -193,19 +196,35 @@ impl Server {
 
         for msg in events.iter() {
             match msg.token() {
-                EVT_MESSAGE => loop {
-                    self.responder_ietf.reset();
-                    self.responder_classic.reset();
+                EVT_MESSAGE => {
+                    // Process a bounded number of batches per call. When requests arrive faster
+                    // than they are answered the socket never drains, and an unbounded loop would
+                    // never return to the caller (which checks for a shutdown request between
+                    // calls) nor service the other event sources.
+                    let mut socket_now_empty = false;
 
-                    let socket_now_empty = self.collect_requests();
+                    for _ in 0..MAX_BATCHES_PER_EVENT {
+                        self.responder_ietf.reset();
+                        self.responder_classic.reset();
 
-                    self.responder_ietf.send_responses(&mut self.socket, &mut self.stats_recorder);
-                    self.responder_classic.send_responses(&mut self.socket, &mut self.stats_recorder);
+                        socket_now_empty = self.collect_requests();
 
-                    if socket_now_empty {
-                        break;
+                        self.responder_ietf.send_responses(&mut self.socket, &mut self.stats_recorder);
+                        self.responder_classic.send_responses(&mut self.socket, &mut self.stats_recorder);
+
+                        if socket_now_empty {
+                            break;
+                        }
                     }
-                },
+
+                    if !socket_now_empty {
+                        // The socket is registered edge-triggered and still has datagrams queued:
+                        // re-arm it so the next poll() reports it readable again.
+                        self.poll
+                            .reregister(&self.socket, EVT_MESSAGE, Ready::readable(), PollOpt::edge())
+                            .expect("failed to re-register server socket");
+                    }
+                }
                 EVT_HEALTH_CHECK => self.handle_health_check(),
                 EVT_STATUS_UPDATE => self.send_client_stats(),
                 _ => unreachable!(),
